@@ -194,7 +194,7 @@ def run(ctx):
     rng = ctx.rng(1)
     key_cases, io_cases = [], []
     done = tries = 0
-    target = ctx.n(36, 800)
+    target = ctx.n(30, 250)
     while done < target and tries < 4 * target:
         tries += 1
         done += int(one_input(ctx, rng, res, stats, key_cases, io_cases))
